@@ -48,6 +48,10 @@ void vf_ainject_disarm(void);
 int vf_ainject_events(void);
 // another thread acts while this one sits in a timed condition-variable wait (one-shot; a notification makes the wait return without time-out)
 void vf_cwait_arm(void (*fn)(void));
+// cooperative thread model (C11): fn runs as the harness thread when a modelled thread is about to wait on a condition variable (it holds the mutex, it is
+// not registered as a waiter yet); when fn needs that mutex the thread's wait completes first. Symbolic build and natively executed translation only.
+void vf_prepark_arm(void (*fn)(void));
+int vf_prepark_pending(void);
 int vf_cwait_pending(void);
 void vf_cwait_disarm(void);
 // another thread acts while this one is blocked: a blocking atomic wait that would never end first runs fn() once (natively: a helper thread runs it 30 ms later)
